@@ -214,7 +214,7 @@ class Unit:
                 rx = r'\s*'.join(re.escape(tok) for tok in old.split())
                 mws = re.search(rx, txt) if old.split() else None
                 if mws:
-                    txt = txt[:mws.start()] + new + txt[mws.end():]
+                    txt = re.sub(rx, lambda _m: new, txt)      # every occurrence, as the verbatim form does
                     notes.add('SUBST', '`%s` => `%s` (%s)' % (old, new, why))
                     if item is not None:
                         item.substs.append((old, new, why))
@@ -270,10 +270,17 @@ class Unit:
             if trait and 'inherent' in s.args and not canary:
                 h = re.sub(r'^(impl(?:\s*<[^>]*>)?)\s+.*?\sfor\s+', r'\1 ', h)
                 notes.add('R9', 'method of `impl %s for ..` emitted in an inherent impl (single implementor; call syntax unchanged)' % trait)
-            if canary and trait:
-                # the canary copy of a trait method lives in an inherent impl of the same type
-                h = re.sub(r'^(impl(?:\s*<[^>]*>)?)\s+.*?\sfor\s+', r'\1 ', h)
-            body = '%s {\n    %s\n}' % (h, txt)
+            if canary and trait and 'canaryfree' in s.args:
+                # impl for a foreign type (e.g. Vec<u8>): the canary copy is a free function carrying the impl's generics
+                g = re.match(r'^impl\s*(<[^>]*>)', h)
+                if g:
+                    txt = re.sub(r'\bfn\s+' + re.escape(fn) + r'__canary\b', 'fn ' + fn + '__canary' + g.group(1), txt, count=1)
+                body = txt
+            else:
+                if canary and trait:
+                    # the canary copy of a trait method lives in an inherent impl of the same type
+                    h = re.sub(r'^(impl(?:\s*<[^>]*>)?)\s+.*?\sfor\s+', r'\1 ', h)
+                body = '%s {\n    %s\n}' % (h, txt)
         else:
             body = txt
         it = Item(qual, 'fn', body, props=props, origin=sp.describe(), notes=notes, src_text=sp.text)
@@ -284,6 +291,8 @@ class Unit:
         if canary:
             it.verus_name += '__canary'
             it.label = qual + '__canary'
+            if trait and 'canaryfree' in s.args:
+                it.verus_name = '%s::%s__canary' % (self.crate_name, fn)
         return it
 
     def _build_lift(self, s, canary):
@@ -623,7 +632,9 @@ def weave(txt, s, notes, canary=False):
             k = int(arg.split()[0])
             cl = _closures(mask, body_open, body_close)
             if k < 1 or k > len(cl):
-                raise ExtractError('@closure %d: function %s has %d closures' % (k, s.args[1], len(cl)))
+                # the closure this contract was written for is gone (code shape changed): go on without it
+                notes.add('LOST-ANCHOR', '@closure %d: function %s has %d closures' % (k, s.args[1], len(cl)))
+                continue
             b1, b2, bs = cl[k - 1]
             # optional parameter types:  @closure K name: Type ; name2: Type2   (made explicit mechanically)
             ptypes = arg.split(None, 1)[1] if len(arg.split(None, 1)) > 1 else ''
